@@ -83,7 +83,7 @@ class GroupBCD(BaseSolver):
             lipschitz = datafit.get_lipschitz(X, y)
 
         all_groups = np.arange(n_groups)
-        p_objs_out = np.zeros(self.max_iter)
+        p_objs_out = []
         stop_crit = np.inf  # prevent ref before assign when max_iter == 0
         accelerator = AndersonAcceleration(K=5)
 
@@ -96,7 +96,7 @@ class GroupBCD(BaseSolver):
 
             if self.ws_strategy == "subdiff":
                 # MM TODO: AndersonCD passes w[:n_features] here
-                opt = penalty.subdiff_distance(w, grad, all_groups)
+                opt = penalty.subdiff_distance(w[:n_features], grad, all_groups)
             elif self.ws_strategy == "fixpoint":
                 opt = dist_fix_point_bcd(
                     w[:n_features], grad, lipschitz, datafit, penalty, all_groups
@@ -110,7 +110,7 @@ class GroupBCD(BaseSolver):
             stop_crit = max(np.max(opt), intercept_opt)
 
             if self.verbose:
-                p_obj = datafit.value(y, w, Xw) + penalty.value(w)
+                p_obj = datafit.value(y, w, Xw) + penalty.value(w[:n_features])
                 print(
                     f"Iteration {t+1}: {p_obj:.10f}, "
                     f"stopping crit: {stop_crit:.2e}"
@@ -119,7 +119,7 @@ class GroupBCD(BaseSolver):
             if stop_crit <= self.tol:
                 break
 
-            gsupp_size = penalty.generalized_support(w).sum()
+            gsupp_size = penalty.generalized_support(w[:n_features]).sum()
             ws_size = max(min(self.p0, n_groups),
                           min(n_groups, 2 * gsupp_size))
             ws = np.argpartition(opt, -ws_size)[-ws_size:]  # k-largest items (no sort)
@@ -143,8 +143,9 @@ class GroupBCD(BaseSolver):
                 w_acc, Xw_acc, is_extrapolated = accelerator.extrapolate(w, Xw)
 
                 if is_extrapolated:  # avoid computing p_obj for un-extrapolated w, Xw
-                    p_obj = datafit.value(y, w, Xw) + penalty.value(w)
-                    p_obj_acc = datafit.value(y, w_acc, Xw_acc) + penalty.value(w_acc)
+                    p_obj = datafit.value(y, w, Xw) + penalty.value(w[:n_features])
+                    p_obj_acc = (datafit.value(y, w_acc, Xw_acc)
+                                 + penalty.value(w_acc[:n_features]))
 
                     if p_obj_acc < p_obj:
                         w[:], Xw[:] = w_acc, Xw_acc
@@ -160,16 +161,16 @@ class GroupBCD(BaseSolver):
 
                     if self.ws_strategy == "subdiff":
                         # TODO MM: AndersonCD uses w[:n_features] here
-                        opt_ws = penalty.subdiff_distance(w, grad_ws, ws)
+                        opt_ws = penalty.subdiff_distance(w[:n_features], grad_ws, ws)
                     elif self.ws_strategy == "fixpoint":
                         opt_ws = dist_fix_point_bcd(
-                            w, grad_ws, lipschitz[ws], datafit, penalty, ws
+                            w[:n_features], grad_ws, lipschitz[ws], datafit, penalty, ws
                         )
 
                     stop_crit_in = np.max(opt_ws)
 
                     if max(self.verbose - 1, 0):
-                        p_obj = datafit.value(y, w, Xw) + penalty.value(w)
+                        p_obj = datafit.value(y, w, Xw) + penalty.value(w[:n_features])
                         print(
                             f"Epoch {epoch + 1}, objective {p_obj:.10f}, "
                             f"stopping crit {stop_crit_in:.2e}"
@@ -177,10 +178,10 @@ class GroupBCD(BaseSolver):
 
                     if stop_crit_in <= 0.3 * stop_crit:
                         break
-            p_obj = datafit.value(y, w, Xw) + penalty.value(w)
-            p_objs_out[t] = p_obj
+            p_obj = datafit.value(y, w, Xw) + penalty.value(w[:n_features])
+            p_objs_out.append(p_obj)
 
-        return w, p_objs_out, stop_crit
+        return w, np.asarray(p_objs_out), stop_crit
 
     def custom_checks(self, X, y, datafit, penalty):
         check_group_compatible(datafit)
